@@ -76,6 +76,20 @@ Theorem C12_record_model_relay_origin : forall org t now sec m s,
 Proof. exact rl_x_conc_relay_o. Qed.
 Print Assumptions C12_record_model_relay_origin.
 
+(* the operation executed in the correspondence run (rl_from / rl_x_from) is the history step, and its record-level form
+   refines the byte-level one *)
+Theorem C12_from_is_history_step : forall t now id ts oz sec msg st,
+  rl_fr_st (rl_from t now id ts oz sec msg st) = rl_ohstep t now (RlOFrom id ts oz sec msg) st.
+Proof. exact rl_from_step. Qed.
+Print Assumptions C12_from_is_history_step.
+
+Theorem C12_record_model_from : forall t now id ts oz sec m s,
+  let rx := rl_x_from t now id ts oz sec m s in
+  let rb := rl_from t now id ts oz sec (rl_x_expand m) (rl_x_conc s) in
+  rl_xfr_acc rx = rl_fr_acc rb /\ rl_xfr_logged rx = rl_fr_logged rb /\ rl_xfr_live rx = rl_fr_live rb /\ rl_x_conc (rl_xfr_st rx) = rl_fr_st rb.
+Proof. exact rl_x_conc_from. Qed.
+Print Assumptions C12_record_model_from.
+
 (* the oracle run over the implementation's observations (position before / after every operation, per endpoint) accepts
    every step of the model *)
 Theorem C12_oracle_accepts_model_posmove : forall t now op st ids,
